@@ -100,6 +100,8 @@ class SockWorld:
             self.sock.subscribe_on_connection_changed(bad_conn)
 
     async def _on_msg(self, hdr, msg):
+        if getattr(self, "msg_gate", None) is not None:
+            await self.msg_gate()
         if self.msg_delays:
             # a subscriber that takes its time (records when it has finished)
             d = self.msg_delays.pop(0)
